@@ -29,7 +29,10 @@ Inductive tval :=
                                                 value stored for it *)
 | TFn (handle arity : N)                     (* Object/Function: Handle (u32), arity (u32) *)
 | TNative (handle : N)                       (* Object/NativeFunction *)
-| TClosure (handle arity : N).               (* Object/Closure (function.handle, function.arity) *)
+| TClosure (id handle arity : N).            (* Object/Closure (function.handle, function.arity); closures
+                                                have identity: [id] names the object (the harness
+                                                numbers the closure objects of a case in first-seen
+                                                order), the same id = the very same object *)
 
 (* ---- f64 helpers, all on spec_float ---- *)
 Definition sf (f : f64) : spec_float := B2SF 53 1024 f.
@@ -70,7 +73,7 @@ Definition is_int (a : tval) : bool := match a with TInt _ => true | _ => false 
 Definition is_obj (a : tval) : bool :=
   match a with TNil | TInt _ | TReal _ => false | _ => true end.
 Definition is_fn (a : tval) : bool :=
-  match a with TFn _ _ | TNative _ | TClosure _ _ => true | _ => false end.
+  match a with TFn _ _ | TNative _ | TClosure _ _ _ => true | _ => false end.
 
 (* CaoLangObject::len: table = keys.len() (every inserted key, also those `iter` skips),
    string = byte length, functions = 0 *)
@@ -83,8 +86,10 @@ Definition tlen (a : tval) : nat :=
 
 (* ---- PartialEq ----
    CaoLangTable::iter yields (k, map.get(k)) for the keys k that the map still finds: a key k
-   with k != k (a NaN, a function object, ...) is never found, the entry is skipped; such keys
-   still count in len().  [tself k] is that test (proved equal to [teq k k] in ValueProofs). *)
+   with k != k (a NaN, or a table showing a NaN) is never found, the entry is skipped; such keys
+   still count in len().  [tself k] is that test (proved equal to [teq k k] in ValueProofs).
+   Function objects are equal to themselves since the repair f13cfaa (finding A-40; the code
+   before it is [tself_legacy] / [teq_legacy] at the end of this file). *)
 Fixpoint tself (a : tval) : bool :=
   match a with
   | TNil | TInt _ | TStr _ => true
@@ -95,7 +100,7 @@ Fixpoint tself (a : tval) : bool :=
          | [] => true
          | (k, v) :: r => (if tself k then tself v else true) && go r
          end) l
-  | TFn _ _ | TNative _ | TClosure _ _ => false
+  | TFn _ _ | TNative _ | TClosure _ _ _ => true
   end.
 
 (* the entries `iter` yields *)
@@ -104,7 +109,8 @@ Definition tvis (l : list (tval * tval)) : list (tval * tval) :=
 
 (* impl PartialEq for Value / CaoLangObject.  Tables: equal len(), then the two iterators are
    zipped (the zip stops at the shorter one) and compared pairwise, key and value.
-   Functions, closures, native functions: `_ => false`, also against themselves. *)
+   Function: same handle and arity; NativeFunction: same handle; Closure: std::ptr::eq, the very
+   same object (whatever handle and arity: they are a function of the object). *)
 Fixpoint teq (a b : tval) : bool :=
   match a, b with
   | TNil, TNil => true
@@ -127,6 +133,9 @@ Fixpoint teq (a b : tval) : bool :=
                   end) l2
              else go r1 l2
          end) l1 l2
+  | TFn h ar, TFn h' ar' => N.eqb h h' && N.eqb ar ar'
+  | TNative h, TNative h' => N.eqb h h'
+  | TClosure i _ _, TClosure j _ _ => N.eqb i j
   | _, _ => false
   end.
 
@@ -150,7 +159,7 @@ Fixpoint thash_bytes (a : tval) : list N :=
          end) l
   | TFn h ar => le_bytes 4 h ++ le_bytes 4 ar
   | TNative h => le_bytes 4 h
-  | TClosure h ar => le_bytes 4 h ++ le_bytes 4 ar
+  | TClosure _ h ar => le_bytes 4 h ++ le_bytes 4 ar
   end.
 
 (* hash(): CaoHasher::default, the writes, finish; 0 -> 1.  Chained `write`s equal one write of
@@ -205,7 +214,7 @@ Definition tbool (a : tval) : bool :=
   | TReal f => negb (SFeqb (sf f) sf_zero)
   | TStr bs => negb (Nat.eqb (length bs) 0)
   | TTable l => negb (Nat.eqb (length l) 0)
-  | TFn _ _ | TNative _ | TClosure _ _ => true
+  | TFn _ _ | TNative _ | TClosure _ _ _ => true
   end.
 
 (* ---- predicates used in the statements ---- *)
@@ -228,9 +237,7 @@ Definition node_not_fn (a : tval) : bool := negb (is_fn a).
 Definition node_not_zero (a : tval) : bool :=
   match a with TReal f => negb (sf_is_zero (sf f)) | _ => true end.
 
-(* the domain on which equality is claimed to be an equivalence: nil, integers, non-NaN reals,
-   strings and tables of those *)
-Definition tclean (a : tval) : bool := tall (fun x => node_not_nan x && node_not_fn x) a.
+(* the domain on which equality is an equivalence: no NaN anywhere inside *)
 Definition no_nan (a : tval) : bool := tall node_not_nan a.
 Definition no_fn (a : tval) : bool := tall node_not_fn a.
 Definition no_zero_real (a : tval) : bool := tall node_not_zero a.
@@ -250,3 +257,77 @@ Definition Z_cmp_sf (i : Z) (x : spec_float) : option comparison :=
            | Zneg p => Z.compare (i * 2 ^ Zpos p) v
            end
   end.
+
+(* ---- closure identities ----
+   [tclos a]: every closure node of a as (id, (handle, arity)).  A set of values is coherent when
+   an id names one object, i.e. determines handle and arity. *)
+Fixpoint tclos (a : tval) : list (N * (N * N)) :=
+  match a with
+  | TClosure i h ar => [(i, (h, ar))]
+  | TTable l =>
+      (fix go (l : list (tval * tval)) : list (N * (N * N)) :=
+         match l with
+         | [] => []
+         | (k, v) :: r => (tclos k ++ tclos v) ++ go r
+         end) l
+  | _ => []
+  end.
+Definition coherent (c : list (N * (N * N))) : Prop :=
+  forall i x y, In (i, x) c -> In (i, y) c -> x = y.
+Definition coherentb (c : list (N * (N * N))) : bool :=
+  forallb (fun p => forallb (fun q =>
+     if N.eqb (fst p) (fst q)
+     then N.eqb (fst (snd p)) (fst (snd q)) && N.eqb (snd (snd p)) (snd (snd q)) else true) c) c.
+
+(* ---- the code before the repair f13cfaa (finding A-40): function, closure and native function
+   objects fell into `_ => false`, also against themselves; kept for the refutation lemmas ---- *)
+Fixpoint tself_legacy (a : tval) : bool :=
+  match a with
+  | TNil | TInt _ | TStr _ => true
+  | TReal f => negb (sf_is_nan (sf f))
+  | TTable l =>
+      (fix go (l : list (tval * tval)) : bool :=
+         match l with
+         | [] => true
+         | (k, v) :: r => (if tself_legacy k then tself_legacy v else true) && go r
+         end) l
+  | TFn _ _ | TNative _ | TClosure _ _ _ => false
+  end.
+
+Fixpoint teq_legacy (a b : tval) : bool :=
+  match a, b with
+  | TNil, TNil => true
+  | TInt x, TInt y => Z.eqb x y
+  | TReal f, TReal g => SFeqb (sf f) (sf g)
+  | TStr x, TStr y => list_eqb N.eqb x y
+  | TTable l1, TTable l2 =>
+      Nat.eqb (length l1) (length l2) &&
+      (fix go (l1 l2 : list (tval * tval)) {struct l1} : bool :=
+         match l1 with
+         | [] => true
+         | (k1, v1) :: r1 =>
+             if tself_legacy k1 then
+               (fix go2 (l2 : list (tval * tval)) : bool :=
+                  match l2 with
+                  | [] => true
+                  | (k2, v2) :: r2 =>
+                      if tself_legacy k2 then teq_legacy k1 k2 && teq_legacy v1 v2 && go r1 r2
+                      else go2 r2
+                  end) l2
+             else go r1 l2
+         end) l1 l2
+  | _, _ => false
+  end.
+
+Fixpoint thash_bytes_legacy (a : tval) : list N :=
+  match a with
+  | TTable l =>
+      (fix go (l : list (tval * tval)) : list N :=
+         match l with
+         | [] => []
+         | (k, v) :: r =>
+             (if tself_legacy k then thash_bytes_legacy k ++ thash_bytes_legacy v else []) ++ go r
+         end) l
+  | _ => thash_bytes a
+  end.
+Definition thash_legacy (a : tval) : N := nonzero_hash (fnv_bytes fnv_offset (thash_bytes_legacy a)).
